@@ -7,21 +7,21 @@ func init() {
 	const cdt = TableGnosisCurrentDecryptionTrigger
 
 	// DELETE FROM transaction_submitted_event WHERE block_number >= $1
-	reg(p+"DeleteTransactionSubmittedEventsFromBlockNumber", "?", params(i8), nil, ordered,
+	reg(p+"DeleteTransactionSubmittedEventsFromBlockNumber", "4fa29271e01c401b", params(i8), nil, ordered,
 		deleteStmt("transaction_submitted_event", func(r Row, a []any) bool { return sqlGe(r["block_number"], a[0]) }))
 
 	// SELECT eon, slot, tx_pointer, identities_hash FROM current_decryption_trigger WHERE eon = $1
-	reg(p+"GetCurrentDecryptionTrigger", "?", params(i8), starCols(cdt), ordered,
+	reg(p+"GetCurrentDecryptionTrigger", "86dc8eb9bcf55d00", params(i8), starCols(cdt), ordered,
 		selectStmt(cdt, allCols(cdt), func(r Row, a []any) bool { return sqlEq(r["eon"], a[0]) }, nil, -1))
 
 	// SELECT COUNT(*) FROM validator_registrations
-	reg(p+"GetNumValidatorRegistrations", "?", nil, countCol, ordered,
+	reg(p+"GetNumValidatorRegistrations", "a9e2ee140819669b", nil, countCol, ordered,
 		countStmt("validator_registrations", nil))
 
 	// SELECT eon, slot, keyper_index, tx_pointer, identities_hash, signature FROM slot_decryption_signatures
 	// WHERE eon = $1 AND slot = $2 AND tx_pointer = $3 AND identities_hash = $4
 	// ORDER BY keyper_index ASC LIMIT $5         (keyper_index unique for fixed eon and slot)
-	reg(p+"GetSlotDecryptionSignatures", "?", params(i8, i8, i8, bya, i8), starCols("slot_decryption_signatures"), ordered,
+	reg(p+"GetSlotDecryptionSignatures", "7c335b6b5e6b80cb", params(i8, i8, i8, bya, i8), starCols("slot_decryption_signatures"), ordered,
 		func(tx *Store, a []any) ([][]any, string, error) {
 			rows := orderRows(tx.where("slot_decryption_signatures", func(r Row) bool {
 				return sqlEq(r["eon"], a[0]) && sqlEq(r["slot"], a[1]) && sqlEq(r["tx_pointer"], a[2]) && sqlEq(r["identities_hash"], a[3])
@@ -35,7 +35,7 @@ func init() {
 
 	// SELECT cast(coalesce(max(index) + 1, 0) AS bigint) FROM transaction_submitted_event WHERE eon = $1
 	// Always one row: 0 if the eon has no events, else the largest index plus one.
-	reg(p+"GetTransactionSubmittedEventCount", "?", params(i8), []ResultCol{{"coalesce", OIDInt8}}, ordered,
+	reg(p+"GetTransactionSubmittedEventCount", "e5bc3739054ea782", params(i8), []ResultCol{{"coalesce", OIDInt8}}, ordered,
 		func(tx *Store, a []any) ([][]any, string, error) {
 			m := tx.maxOf("transaction_submitted_event", "index", func(r Row) bool { return sqlEq(r["eon"], a[0]) })
 			v, err := addInt8(m, int64(1))
@@ -54,7 +54,7 @@ func init() {
 	// $3 is a bigint, used both in the arithmetic and as the LIMIT;
 	// $2 + $3 raises "bigint out of range" on overflow; a NULL $2 or $3
 	// makes the condition unknown (no rows).
-	reg(p+"GetTransactionSubmittedEvents", "?", params(i8, i8, i8), starCols("transaction_submitted_event"), ordered,
+	reg(p+"GetTransactionSubmittedEvents", "a9c1bf9cf7af9cf9", params(i8, i8, i8), starCols("transaction_submitted_event"), ordered,
 		func(tx *Store, a []any) ([][]any, string, error) {
 			if a[2] != nil && a[2].(int64) < 0 {
 				// LIMIT is evaluated at executor start, before any row is scanned
@@ -76,11 +76,11 @@ func init() {
 		})
 
 	// SELECT enforce_one_row, block_hash, block_number, slot FROM transaction_submitted_events_synced_until LIMIT 1
-	reg(p+"GetTransactionSubmittedEventsSyncedUntil", "?", nil, starCols("transaction_submitted_events_synced_until"), unordered,
+	reg(p+"GetTransactionSubmittedEventsSyncedUntil", "55b77c3efe2485fc", nil, starCols("transaction_submitted_events_synced_until"), unordered,
 		selectStmt("transaction_submitted_events_synced_until", allCols("transaction_submitted_events_synced_until"), nil, nil, 1))
 
 	// SELECT eon, age, value FROM tx_pointer WHERE eon = $1
-	reg(p+"GetTxPointer", "?", params(i8), starCols("tx_pointer"), ordered,
+	reg(p+"GetTxPointer", "f50d107c2649b2d9", params(i8), starCols("tx_pointer"), ordered,
 		selectStmt("tx_pointer", allCols("tx_pointer"), func(r Row, a []any) bool { return sqlEq(r["eon"], a[0]) }, nil, -1))
 
 	// SELECT nonce FROM validator_registrations
@@ -88,18 +88,18 @@ func init() {
 	// ORDER BY block_number DESC, tx_index DESC, log_index DESC LIMIT 1
 	// (note: the three <= are independent conditions, not a lexicographic comparison;
 	//  for a fixed validator_index the sort key is unique)
-	reg(p+"GetValidatorRegistrationNonceBefore", "?", params(i8, i8, i8, i8), colsOf("validator_registrations", "nonce"), ordered,
+	reg(p+"GetValidatorRegistrationNonceBefore", "0ecc84f34ca96d80", params(i8, i8, i8, i8), colsOf("validator_registrations", "nonce"), ordered,
 		selectStmt("validator_registrations", []string{"nonce"}, func(r Row, a []any) bool {
 			return sqlEq(r["validator_index"], a[0]) && sqlLe(r["block_number"], a[1]) && sqlLe(r["tx_index"], a[2]) && sqlLe(r["log_index"], a[3])
 		}, []sortKey{desc("block_number"), desc("tx_index"), desc("log_index")}, 1))
 
 	// SELECT enforce_one_row, block_hash, block_number FROM validator_registrations_synced_until LIMIT 1
-	reg(p+"GetValidatorRegistrationsSyncedUntil", "?", nil, starCols("validator_registrations_synced_until"), unordered,
+	reg(p+"GetValidatorRegistrationsSyncedUntil", "a5b20500980f64b4", nil, starCols("validator_registrations_synced_until"), unordered,
 		selectStmt("validator_registrations_synced_until", allCols("validator_registrations_synced_until"), nil, nil, 1))
 
 	// UPDATE tx_pointer SET age = age + 1 WHERE eon = $1 RETURNING age
 	// NULL + 1 is NULL: a reset pointer stays NULL.  No row -> no result row.
-	reg(p+"IncrementTxPointerAge", "?", params(i8), colsOf("tx_pointer", "age"), ordered,
+	reg(p+"IncrementTxPointerAge", "9033255e11971874", params(i8), colsOf("tx_pointer", "age"), ordered,
 		func(tx *Store, a []any) ([][]any, string, error) {
 			u, err := tx.updateWhere("tx_pointer",
 				func(r Row) bool { return sqlEq(r["eon"], a[0]) },
@@ -114,12 +114,12 @@ func init() {
 		})
 
 	// INSERT INTO tx_pointer (eon, age, value) VALUES ($1, $2, $3) ON CONFLICT DO NOTHING
-	reg(p+"InitTxPointer", "?", params(i8, i8, i8), nil, ordered,
+	reg(p+"InitTxPointer", "d3009b6a15ade897", params(i8, i8, i8), nil, ordered,
 		insertStmt("tx_pointer", []string{"eon", "age", "value"}, always(doNothing())))
 
 	// INSERT INTO slot_decryption_signatures (eon, slot, keyper_index, tx_pointer, identities_hash, signature)
 	// VALUES ($1, $2, $3, $4, $5, $6) ON CONFLICT DO NOTHING
-	reg(p+"InsertSlotDecryptionSignature", "?", params(i8, i8, i8, i8, bya, bya), nil, ordered,
+	reg(p+"InsertSlotDecryptionSignature", "43f8bf577ba787ff", params(i8, i8, i8, i8, bya, bya), nil, ordered,
 		insertStmt("slot_decryption_signatures", []string{"eon", "slot", "keyper_index", "tx_pointer", "identities_hash", "signature"}, always(doNothing())))
 
 	// INSERT INTO transaction_submitted_event (index, block_number, block_hash, tx_index, log_index, eon,
@@ -128,7 +128,7 @@ func init() {
 	// ON CONFLICT (index, eon) DO UPDATE SET
 	// block_number = $2, block_hash = $3, tx_index = $4, log_index = $5,
 	// identity_prefix = $7, sender = $8, gas_limit = $9
-	reg(p+"InsertTransactionSubmittedEvent", "?", params(i8, i8, bya, i8, i8, i8, bya, txt, i8), nil, ordered,
+	reg(p+"InsertTransactionSubmittedEvent", "45ac0f4f00735773", params(i8, i8, bya, i8, i8, i8, bya, txt, i8), nil, ordered,
 		insertStmt("transaction_submitted_event",
 			[]string{"index", "block_number", "block_hash", "tx_index", "log_index", "eon", "identity_prefix", "sender", "gas_limit"},
 			setParams([]string{"index", "eon"}, map[string]int{
@@ -137,20 +137,20 @@ func init() {
 
 	// INSERT INTO validator_registrations (block_number, block_hash, tx_index, log_index, validator_index,
 	//     nonce, is_registration) VALUES ($1, $2, $3, $4, $5, $6, $7)
-	reg(p+"InsertValidatorRegistration", "?", params(i8, bya, i8, i8, i8, i8, bl), nil, ordered,
+	reg(p+"InsertValidatorRegistration", "22431dfff6d09c90", params(i8, bya, i8, i8, i8, i8, bl), nil, ordered,
 		insertStmt("validator_registrations",
 			[]string{"block_number", "block_hash", "tx_index", "log_index", "validator_index", "nonce", "is_registration"}, nil))
 
 	// SELECT is_registration FROM validator_registrations
 	// WHERE validator_index = $1 AND block_number < $2
 	// ORDER BY block_number DESC, tx_index DESC, log_index DESC LIMIT 1
-	reg(p+"IsValidatorRegistered", "?", params(i8, i8), colsOf("validator_registrations", "is_registration"), ordered,
+	reg(p+"IsValidatorRegistered", "dab5c859b0c45b22", params(i8, i8), colsOf("validator_registrations", "is_registration"), ordered,
 		selectStmt("validator_registrations", []string{"is_registration"}, func(r Row, a []any) bool {
 			return sqlEq(r["validator_index"], a[0]) && sqlLt(r["block_number"], a[1])
 		}, []sortKey{desc("block_number"), desc("tx_index"), desc("log_index")}, 1))
 
 	// UPDATE tx_pointer SET age = NULL
-	reg(p+"ResetAllTxPointerAges", "?", nil, nil, ordered,
+	reg(p+"ResetAllTxPointerAges", "59c5e6a3918721ff", nil, nil, ordered,
 		func(tx *Store, a []any) ([][]any, string, error) {
 			u, err := tx.updateWhere("tx_pointer", nil, func(Row) (Row, error) { return Row{"age": nil}, nil })
 			return nil, tagUpdate(len(u)), err
@@ -158,25 +158,25 @@ func init() {
 
 	// INSERT INTO current_decryption_trigger (eon, slot, tx_pointer, identities_hash) VALUES ($1, $2, $3, $4)
 	// ON CONFLICT (eon) DO UPDATE SET slot = $2, tx_pointer = $3, identities_hash = $4
-	reg(p+"SetCurrentDecryptionTrigger", "?", params(i8, i8, i8, bya), nil, ordered,
+	reg(p+"SetCurrentDecryptionTrigger", "3ede00a3e4998aa5", params(i8, i8, i8, bya), nil, ordered,
 		insertStmt(cdt, []string{"eon", "slot", "tx_pointer", "identities_hash"},
 			setParams([]string{"eon"}, map[string]int{"slot": 2, "tx_pointer": 3, "identities_hash": 4})))
 
 	// INSERT INTO transaction_submitted_events_synced_until (block_hash, block_number, slot) VALUES ($1, $2, $3)
 	// ON CONFLICT (enforce_one_row) DO UPDATE SET block_hash = $1, block_number = $2, slot = $3
-	reg(p+"SetTransactionSubmittedEventsSyncedUntil", "?", params(bya, i8, i8), nil, ordered,
+	reg(p+"SetTransactionSubmittedEventsSyncedUntil", "4ae6e037bca06838", params(bya, i8, i8), nil, ordered,
 		insertStmt("transaction_submitted_events_synced_until", []string{"block_hash", "block_number", "slot"},
 			setParams([]string{"enforce_one_row"}, map[string]int{"block_hash": 1, "block_number": 2, "slot": 3})))
 
 	// INSERT INTO tx_pointer (eon, age, value) VALUES ($1, $2, $3)
 	// ON CONFLICT (eon) DO UPDATE SET age = $2, value = $3
-	reg(p+"SetTxPointer", "?", params(i8, i8, i8), nil, ordered,
+	reg(p+"SetTxPointer", "d6b4e17ebb5e5f15", params(i8, i8, i8), nil, ordered,
 		insertStmt("tx_pointer", []string{"eon", "age", "value"},
 			setParams([]string{"eon"}, map[string]int{"age": 2, "value": 3})))
 
 	// INSERT INTO validator_registrations_synced_until (block_hash, block_number) VALUES ($1, $2)
 	// ON CONFLICT (enforce_one_row) DO UPDATE SET block_hash = $1, block_number = $2
-	reg(p+"SetValidatorRegistrationsSyncedUntil", "?", params(bya, i8), nil, ordered,
+	reg(p+"SetValidatorRegistrationsSyncedUntil", "01a5ba84ac65bb64", params(bya, i8), nil, ordered,
 		insertStmt("validator_registrations_synced_until", []string{"block_hash", "block_number"},
 			setParams([]string{"enforce_one_row"}, map[string]int{"block_hash": 1, "block_number": 2})))
 }
